@@ -133,13 +133,6 @@ def mkSem (vars : List (Nat × Ty)) (lits : List (List Char × Ty × Int)) : Sem
 
 def tf (b : Bool) : String := if b then "T" else "F"
 
-/-- `vtOK` on every node -/
-def vtAll (S : Sem) : Expr → Bool
-  | .lit a sp => vtOK S (.lit a sp)
-  | .var a x => vtOK S (.var a x)
-  | .un a op e => vtOK S (.un a op e) && vtAll S e
-  | .bin a op l r => vtOK S (.bin a op l r) && vtAll S l && vtAll S r
-
 def results (cpp : Bool) (a b : Expr) : String :=
   tf (isSame cpp .cond a .cond b) ++ tf (isOpp cpp false .cond a .cond b) ++ tf (isOpp cpp true .cond a .cond b) ++
   tf (isOppExpr cpp .cond a .cond b)
